@@ -5,7 +5,7 @@ from . import common as C
 from . import mapfam as F
 import harness.gen_map as G
 
-QUICK_CONFIGS = ['gcc20-ubsan']
+QUICK_CONFIGS = ['gcc20-ubsan', 'gcc17-ubsan']      # C++17: the pre-C++20 branches (hand-written defaults, no requires-clauses)
 THOROUGH_CONFIGS = ['gcc20-ubsan', 'clang20-ubsan', 'gcc17-ubsan', 'gcc23-ubsan']
 
 def warm(prop):
@@ -118,8 +118,38 @@ def analyse_C02(cases, rep):
             rep.sample(dict(line=c.base(), strides=c.out('strides'), first=[[a, x] for (o, a), x in zip(c.ops, c.impl) if o == 'off'][:4]))
 
 # ------------------------------------------------------------------------------------------- C05
+def dflt_C05(c, rep):
+    """required_span_size() of a default-constructed mapping (default extents: dynamic positions 0)"""
+    xi, xm = c.out('dflt'), c.out('dflt', side='model')
+    if xi is None or xi == 'no-op': return
+    rep.cov['evaluations'] += 1; rep.cov['traces_validated_against_impl'] += 1
+    if not xi.startswith('ok e='):
+        if xi != xm: rep.broke(payload(c, correspondence='map family, default construction', impl=xi, model=xm))
+        return
+    d = dict(x.split('=') for x in xi[3:].split()); dm = dict(x.split('=') for x in xm[3:].split()) if xm.startswith('ok e=') else {}
+    if d.get('span') != dm.get('span'): rep.broke(payload(c, correspondence='map family, required_span_size of the default-constructed mapping', impl=xi, model=xm))
+    es = [] if d['e'] == '-' else [int(v) for v in d['e'].split(',')]; st = [] if d['s'] == '-' else [int(v) for v in d['s'].split(',')]
+    span = int(d['span']); r = len(es); empty = any(e == 0 for e in es)
+    kind, t, pat, sp = c.inst
+    if kind in ('left', 'right', 'stride'):
+        if C.prod([max(e, 1) for e in es]) > C.hi(t): return
+        want = 0 if empty else C.prod(es)
+        if span != want: rep.violation(payload(c, kind='required_span_size-of-default-constructed-mapping-not-exact', impl=xi, specified=want))
+    else:
+        if r >= 2:
+            e = es[0] if kind == 'lpad' else es[-1]
+            ps = e if sp in (None, 'D') else F.least_multiple(sp, e)
+            rest = es[1:] if kind == 'lpad' else es[:-1]
+            if max(ps, 1) * C.prod([max(x, 1) for x in rest]) > C.hi(t): return
+            hi_ = ps * C.prod(rest); lo_ = 1 + sum((x - 1) * y for x, y in zip(es, st))
+        else: hi_ = lo_ = C.prod(es)
+        if empty: hi_ = lo_ = 0
+        if not (lo_ <= span <= hi_): rep.violation(payload(c, kind='padded-required_span_size-of-default-constructed-mapping-out-of-bounds', impl=xi, at_least=lo_, at_most=hi_))
+    if r >= 1 and not empty: rep.nontrivial(c.base() + ' dflt')
+
 def analyse_C05(cases, rep):
     for c in cases:
+        if c.stream == 'default-ctor': dflt_C05(c, rep); continue
         xi, xm = c.out('span'), c.out('span', side='model')
         if xi is None: continue
         rep.cov['evaluations'] += 1; rep.cov['traces_validated_against_impl'] += 1
